@@ -166,6 +166,8 @@ MUTANTS = [
     ("c13-revert-restore-in-finally", "C13", "pylife/core/broadcaster.py",
      "        finally:\n            self._obj.index = original_obj_index\n            parameter.index = original_parameter_index\n            _replace_unique_string_with_none_name([self._obj, parameter], uuids)\n",
      "        finally:\n            pass\n        self._obj.index = original_obj_index\n        parameter.index = original_parameter_index\n        _replace_unique_string_with_none_name([self._obj, parameter], uuids)\n"),
+    ("c04-revert-multipoint-upcast", "C04", "pylife/stress/rainflow/fkm_nonlinear.py",
+     "            samples = samples.astype(np.float64)\n", "            pass\n"),
     ("c05-revert-first-load-step", "C05", "pylife/stress/rainflow/fkm_nonlinear.py",
      "                first_sample = samples[load_steps == load_steps[0]].reset_index(drop=True)\n",
      "                first_sample = samples[load_steps == 0].reset_index(drop=True)\n"),
